@@ -297,7 +297,7 @@ func init() {
 					type strRow struct {
 						A string `json:"a"`
 						O string `json:"o,omitempty"`
-							I any    `json:"i"`
+						I any    `json:"i"`
 					}
 					rows := make([]strRow, len(gen.Strs))
 					for i, x := range gen.Strs {
